@@ -226,7 +226,8 @@ def rule_filter(ctx: Ctx, rule: str = "C12.allproviders"):
     fl = ctx.fn("Listeners.from_listeners")
     for p in ctx.paths(fl, inline=None, exc_edges="none"):
         v = xshow(p.value, p.events) if p.kind == "return" else ""
-        rep.check("set().union(*(" in v and ".all_attrs for " in v and v.startswith("cls(tuple("), rule, fl.loc(),
+        union = ("set().union(*(" in v or "set(chain.from_iterable(" in v.replace("itertools.", "") or "set().union(*[" in v) and ".all_attrs for " in v
+        rep.check(union and v.startswith("cls(tuple("), rule, fl.loc(),
                   "the provider set knows the attribute names of all its providers", fl.key, f"return {v}")
 
 
@@ -521,4 +522,12 @@ def rule_inspected_per_object(ctx: Ctx):
     check_fresh(ctx, "C12.own", _resolution_pipeline(ctx), "each provider's callbacks are resolved on that very object")
 
 
-RULES = [rule_allproviders, rule_filter, rule_samepath, rule_dedup, rule_own, rule_engine, rule_inspected_per_object]
+def rule_attach_from_callback(ctx: Ctx):
+    """C12.same-path: `add_listener` may be called at any time, also from inside a callback of the machine: the callback group
+    that is running keeps iterating its own snapshot."""
+    from . import c02
+
+    c02.rule_snapshot_iteration(ctx, "C12.same-path")
+
+
+RULES = [rule_allproviders, rule_filter, rule_samepath, rule_dedup, rule_own, rule_engine, rule_inspected_per_object, rule_attach_from_callback]
